@@ -332,8 +332,27 @@ class Env:
             fn = M.local_fn(callee, th.stack[-1].fn.crate if th.stack and th.stack[-1].kind == 'mir' else None)
             if fn is not None:
                 M.push_mir(st, th, fn, list(a)); return [('push', st)]
+            return s._generic_from(M, st, th, m.group(1), a)
         return None
-    def t_From__from(s, M, st, th, ci, a): return s.convert_into(M, st, th, ci, a[0])
+    def t_From__from(s, M, st, th, ci, a):
+        r = s.convert_into(M, st, th, ci, a[0])
+        if r is not None: return r
+        return s._generic_from(M, st, th, ci['selfty'], a)
+
+    def _generic_from(s, M, st, th, target, a):
+        """`<U as From<T>>::from(v)` inside generic code, U a bare type parameter (no monomorphisation here): the conversion is
+        chosen by the VALUE - the one From impl of the workspace that takes this type, or the reflexive `From<T> for T` when
+        there is none.  More than one candidate is not decided (Unmodelled)."""
+        if not re.match(r'^[A-Z]\w{0,2}$', target.strip()): return None
+        v = a[0]
+        vt = v.ty if isinstance(v, Agg) else None
+        if vt is None: return s.ret(st, v)                     # scalars / references: only the reflexive impl can be meant
+        from .core import type_head
+        c = [n for n in M.by_last.get('from', []) if len(M.fns[n].params) == 1 and type_head(M.fns[n].params[0][1]) == vt]
+        if not c: return s.ret(st, v)
+        if len(c) == 1:
+            M.push_mir(st, th, c[0], list(a)); return [('push', st)]
+        return None
     def convert_into(s, M, st, th, ci, v): return None
 
     def t_IntoFuture__into_future(s, M, st, th, ci, a): return s.ret(st, a[0])
@@ -447,6 +466,8 @@ class Env:
     def d_AssertUnwindSafe(s, M, st, th, v): return None
     def d_PanicPayload(s, M, st, th, v): return True
 
+    def p___identity(s, M, st, th, ci, a): return s.ret(st, a[0])            # std::convert::identity
+    p_convert__identity = p___identity
     def p___panicking(s, M, st, th, ci, a): return s.ret(st, bool(th.panicking))       # std::thread::panicking
     p_thread__panicking = p___panicking
     def p_mem__forget(s, M, st, th, ci, a): return s.ret(st, UNIT)
@@ -642,7 +663,13 @@ class Env:
     def t_AsRef__as_ref(s, M, st, th, ci, a):
         v = s.tgt(M, st, a[0])
         if isinstance(v, Agg) and v.ty == 'Arc': return s.ret(st, v.f[0].field(0))
+        # String / str / Vec / slices / paths: the view is the value itself in this representation
+        if isinstance(v, Agg) and v.ty in ('String', 'str', 'Vec', 'VecDeque', 'array', 'PathBuf', 'Path', 'OsString'): return s.ret(st, a[0])
+        if isinstance(v, Opaque) and v.tag.startswith('str:'): return s.ret(st, a[0])
+        if isinstance(v, Ref): return s.ret(st, v)              # &&T: one level of auto-deref
         return None
+    t_AsMut__as_mut = t_AsRef__as_ref
+    t_Borrow__borrow = t_AsRef__as_ref
 
     def _deref(s, M, st, th, ci, a):
         v = s.tgt(M, st, a[0])
@@ -899,6 +926,9 @@ class Env:
     p_Vec__get_mut = p_VecDeque__get
 
     def p_Vec__shrink_to(s, M, st, th, ci, a): return s.ret(st, UNIT)
+    def p_Vec__as_slice(s, M, st, th, ci, a): return s.ret(st, a[0])
+    p_Vec__as_mut_slice = p_Vec__as_slice
+    p_VecDeque__make_contiguous = p_Vec__as_slice
     p_VecDeque__shrink_to = p_Vec__shrink_to
 
     def t_IndexMut__index_mut(s, M, st, th, ci, a):
